@@ -663,6 +663,19 @@ func c08Matching(c *Ctx) {
 	if loop == nil {
 		c.Bad("C08-R6", "isEnabled:disabled-loop", fi.Decl.Pos(), "no loop over disabledChecks")
 	} else {
+		// `locked` shields a check from comments only: the scan of the disabled
+		// list (which is also the list of --disabled / checks{disabled} / --offline
+		// names) is not under a condition on it
+		lockedGuard := ""
+		if lp := param("locked"); lp != nil {
+			for _, a := range lexicalGuards(parentMap(fi.Decl.Body), loop, fi.Decl.Body) {
+				if mentionsObj(info, a.E, lp) {
+					lockedGuard = roleStr(info, a.E)
+				}
+			}
+		}
+		c.Check(lockedGuard == "", "C08-R6", "isEnabled:the disabled list applies to locked checks too", loop.Pos(), "not guarded by locked",
+			"the scan of the disabled list is guarded by `"+lockedGuard+"`: a check defined in a `locked = true` rule block can no longer be switched off by name (checks { disabled }, --disabled, --offline)")
 		sort.Strings(others)
 		// accepted spellings besides name: check.String() and name(+tag)
 		okOthers := true
